@@ -24,6 +24,7 @@ import Driver.Static
 import Driver.HandlerCfg
 import Driver.Frame
 import Driver.Ether
+import Driver.TxGas
 /-! Line-protocol driver: one request per line on stdin, one reply per line on stdout.
 Stateless components are dispatched on the first token. A stateful component `X` adds a field
 `x : Driver.X.St := Driver.X.St.init` to `DState`, resets it on `begin x …` and threads it through
@@ -93,6 +94,7 @@ def step (st : DState) (line : String) : DState × String :=
   | "begin" :: "ether" :: r => let (s, o) := Driver.Ether.begin r; ({ st with ether := s }, o)
   | "e" :: r => let (s, o) := Driver.Ether.handle st.ether r; ({ st with ether := s }, o)
   | "etx" :: r => (st, Driver.Ether.etx r)
+  | "txgas" :: r => (st, TxGas.handle r)
   | _ => (st, "bad-op")
 
 partial def loop (hin hout : IO.FS.Stream) (st : DState) : IO Unit := do
